@@ -11,31 +11,31 @@ pub open spec fn true_target(b: BasicBlock) -> usize { bb_stmts(b).last()->IfThe
 pub open spec fn false_target(b: BasicBlock) -> Option<usize> { bb_stmts(b).last()->IfThenElse_false_index }
 pub open spec fn succ_limit(b: BasicBlock) -> int { if ends_in_branch(b) { 2 } else { 1 } }
 
-// the invariant (DESIGN.md §5 C12). `n` = number of blocks built so far; a branch whose true target is `n` is
-// pending: its target is the block that the very next complete_basic_block creates.
-pub open spec fn wf_block(v: Seq<BasicBlock>, k: int) -> bool {
+// ---- the branch part of the invariant (I5-I7).  `pend` = a branch whose true target is v.len() is allowed: its target
+// is the block that the very next complete_basic_block creates.
+pub open spec fn br_block(v: Seq<BasicBlock>, k: int, pend: bool) -> bool {
     let b = v[k];
-    &&& bb_index(b) == k                                                                               // I1
-    &&& (forall|q: usize| #[trigger] bb_preds(b).contains(q) ==> q < v.len() && bb_succs(v[q as int]).contains(k as usize))   // I2
-    &&& (forall|s: usize| #[trigger] bb_succs(b).contains(s) ==> s < v.len() && bb_preds(v[s as int]).contains(k as usize))   // I2
-    &&& (k == 0 ==> bb_preds(b) =~= Set::<usize>::empty())                                          // I3
-    &&& (k > 0 ==> exists|q: usize| #[trigger] bb_preds(b).contains(q) && q < k)                        // I4
-    &&& (forall|i: int| 0 <= i < bb_stmts(b).len() - 1 ==> !is_branch(#[trigger] bb_stmts(b)[i]))       // I5
-    &&& (ends_in_branch(b) ==> (bb_succs(b).contains(true_target(b)) || true_target(b) == v.len()))     // I6 (true target)
+    &&& (forall|i: int| 0 <= i < bb_stmts(b).len() - 1 ==> !is_branch(#[trigger] bb_stmts(b)[i]))       // I5: a branch is the last statement
+    &&& (ends_in_branch(b) ==> (bb_succs(b).contains(true_target(b)) || (pend && true_target(b) == v.len())))   // I6 (true target)
     &&& (ends_in_branch(b) && false_target(b) is Some ==> bb_succs(b).contains(false_target(b).unwrap()) && false_target(b).unwrap() != true_target(b))  // I6
-    &&& bb_succs(b).finite() && bb_succs(b).len() <= succ_limit(b)                                      // I7
+    &&& bb_succs(b).len() <= succ_limit(b)                                                              // I7
 }
-pub open spec fn wf_blocks(v: Seq<BasicBlock>) -> bool {
-    v.len() >= 1 && forall|k: int| 0 <= k < v.len() ==> #[trigger] wf_block(v, k)
+pub open spec fn br(v: Seq<BasicBlock>, pend: bool) -> bool { forall|k: int| 0 <= k < v.len() ==> #[trigger] br_block(v, k, pend) }
+pub open spec fn pending(v: Seq<BasicBlock>, k: int) -> bool { ends_in_branch(v[k]) && true_target(v[k]) == v.len() }
+// block i can take one more successor
+pub open spec fn has_room(v: Seq<BasicBlock>, i: usize) -> bool { i < v.len() && bb_succs(v[i as int]).len() < succ_limit(v[i as int]) }
+// the last block is still being filled: no successor yet, no branch at its end
+pub open spec fn open_last(v: Seq<BasicBlock>) -> bool { v.len() >= 1 && bb_succs(v.last()) =~= Set::<usize>::empty() && !ends_in_branch(v.last()) }
+// the statements of block b0 after complete_basic_block connected it to the new block j (false target patched)
+pub open spec fn patched(b0: BasicBlock, b: BasicBlock, j: usize) -> bool {
+    let s0 = bb_stmts(b0); let s = bb_stmts(b);
+    &&& s.len() == s0.len()
+    &&& (forall|i: int| 0 <= i < s.len() - 1 ==> #[trigger] s[i] == s0[i])
+    &&& (s.len() > 0 ==> (
+          if is_branch(s0.last()) && s0.last()->IfThenElse_true_index != j && s0.last()->IfThenElse_false_index is None {
+              is_branch(s.last()) && s.last()->IfThenElse_true_index == s0.last()->IfThenElse_true_index && s.last()->IfThenElse_false_index == Some(j)
+          } else { s.last() == s0.last() }))
 }
-// block i can take the new block j = v.len() as one more successor
-pub open spec fn has_room(v: Seq<BasicBlock>, i: usize) -> bool {
-    let b = v[i as int];
-    i < v.len()
-    && bb_succs(b).len() < succ_limit(b)
-    && (ends_in_branch(b) && false_target(b) is Some ==> true_target(b) == v.len())
-}
-
 
 // ---- the graph-shape part of the invariant (proved): indices, mirrored edges inside the vector, entry without
 // predecessors, every other block has a predecessor with a smaller index (hence: reachable from the entry, and a
@@ -60,6 +60,7 @@ pub open spec fn mid(v0: Seq<BasicBlock>, v: Seq<BasicBlock>, seen: Set<usize>, 
     &&& v.len() == n + 1
     &&& (forall|k: int| 0 <= k < n ==> bb_index(#[trigger] v[k]) == bb_index(v0[k]) && bb_preds(v[k]) =~= bb_preds(v0[k]) && bb_depth(v[k]) == bb_depth(v0[k])
             && bb_succs(v[k]) =~= (if seen.contains(k as usize) { bb_succs(v0[k]).insert(n as usize) } else { bb_succs(v0[k]) }))
+    &&& (forall|k: int| 0 <= k < n ==> (if seen.contains(k as usize) { patched(v0[k], #[trigger] v[k], n as usize) } else { v[k] == v0[k] }))
     &&& bb_index(v[n]) == n
     &&& bb_depth(v[n]) == depth
     &&& bb_preds(v[n]) =~= seen
@@ -267,4 +268,119 @@ pub proof fn theorem_dominator_order(v: Seq<BasicBlock>, i: usize, j: usize)
     assert(s.contains(i));
     let k = choose|k: int| 0 <= k < s.len() && s[k] == i;
     assert(s[k] <= j);
+}
+
+// ---- I5-I7 through complete_basic_block
+pub proof fn lemma_two_elems(s: Set<usize>, a: usize, b: usize)
+    requires s.contains(a), s.contains(b), a != b
+    ensures s.len() >= 2
+{
+    let t = s.remove(a).remove(b);
+    assert(s =~= t.insert(b).insert(a));
+    assert(!t.contains(b) && !t.insert(b).contains(a));
+}
+pub proof fn lemma_mid_br(v0: Seq<BasicBlock>, v: Seq<BasicBlock>, seen: Set<usize>, depth: usize)
+    requires shape(v0), br(v0, true), mid(v0, v, seen, depth), in_range(seen, v0.len() as int),
+        forall|i: usize| seen.contains(i) ==> has_room(v0, i),
+        forall|k: int| 0 <= k < v0.len() && pending(v0, k) ==> seen.contains(k as usize),
+    ensures br(v, false), open_last(v)
+{
+    let n = v0.len() as int;
+    assert forall|k: int| 0 <= k < v.len() implies #[trigger] br_block(v, k, false) by {
+        if k < n {
+            assert(br_block(v0, k, true));
+            assert(shape_block(v0, k));
+            assert(!bb_succs(v0[k]).contains(n as usize));
+            if seen.contains(k as usize) {
+                assert(has_room(v0, k as usize));
+                assert(patched(v0[k], v[k], n as usize));
+                assert(bb_succs(v[k]) =~= bb_succs(v0[k]).insert(n as usize));
+                let s0 = bb_stmts(v0[k]); let s = bb_stmts(v[k]);
+                assert forall|i: int| 0 <= i < s.len() - 1 implies !is_branch(#[trigger] s[i]) by { assert(s[i] == s0[i]); }
+                assert(ends_in_branch(v[k]) == ends_in_branch(v0[k]));
+            } else {
+                assert(v[k] == v0[k]);
+                assert(!pending(v0, k));
+            }
+        }
+    }
+}
+
+// ---- I5-I7 through visit_statement
+// what visit_statement promises about the set P it returns ("the predecessors of the next block"), n0 = number of
+// blocks at entry: every member is a block at or after the entry's current block with room for one more successor;
+// when P is empty the last block is still open
+pub open spec fn exits_ok(n0: int, v: Seq<BasicBlock>, p: Set<usize>) -> bool {
+    &&& (forall|i: usize| #[trigger] p.contains(i) ==> n0 - 1 <= i && has_room(v, i))
+    &&& (p.len() == 0 ==> open_last(v))
+}
+// blocks before index m are untouched
+pub open spec fn frame(v0: Seq<BasicBlock>, v: Seq<BasicBlock>, m: int) -> bool {
+    v0.len() <= v.len() && forall|k: int| 0 <= k < m && k < v0.len() ==> #[trigger] v[k] == v0[k]
+}
+pub proof fn lemma_br_weaken(v: Seq<BasicBlock>)
+    requires shape(v), br(v, false)
+    ensures br(v, true), forall|k: int| 0 <= k < v.len() ==> !pending(v, k)
+{
+    assert forall|k: int| 0 <= k < v.len() implies #[trigger] br_block(v, k, true) by { assert(br_block(v, k, false)); }
+    assert forall|k: int| 0 <= k < v.len() implies !pending(v, k) by { assert(br_block(v, k, false)); assert(shape_block(v, k)); }
+}
+// w = v with a statement appended to the (open) last block
+pub open spec fn appended(v: Seq<BasicBlock>, w: Seq<BasicBlock>) -> bool {
+    let l = v.len() - 1;
+    &&& w.len() == v.len()
+    &&& (forall|k: int| 0 <= k < l ==> #[trigger] w[k] == v[k])
+    &&& bb_index(w[l]) == bb_index(v[l]) && bb_preds(w[l]) =~= bb_preds(v[l]) && bb_succs(w[l]) =~= bb_succs(v[l]) && bb_depth(w[l]) == bb_depth(v[l])
+    &&& bb_stmts(w[l]).len() == bb_stmts(v[l]).len() + 1 && bb_stmts(w[l]).drop_last() =~= bb_stmts(v[l])
+}
+pub proof fn lemma_append_plain(v: Seq<BasicBlock>, w: Seq<BasicBlock>)
+    requires shape(v), br(v, false), open_last(v), appended(v, w), !is_branch(bb_stmts(w.last()).last())
+    ensures br(w, false), open_last(w), frame(v, w, v.len() - 1)
+{
+    let l = v.len() - 1;
+    assert forall|k: int| 0 <= k < w.len() implies #[trigger] br_block(w, k, false) by {
+        assert(br_block(v, k, false));
+        if k == l {
+            let s = bb_stmts(w[l]); let s0 = bb_stmts(v[l]);
+            assert forall|i: int| 0 <= i < s.len() - 1 implies !is_branch(#[trigger] s[i]) by {
+                assert(s[i] == s.drop_last()[i]);
+                if i < s0.len() - 1 { assert(!is_branch(s0[i])); } else { assert(s0[i] == s0.last()); }
+            }
+        }
+    }
+}
+// appending a branch whose true target is the next block to be created
+pub proof fn lemma_append_branch(v: Seq<BasicBlock>, w: Seq<BasicBlock>)
+    requires shape(v), br(v, false), open_last(v), appended(v, w),
+        is_branch(bb_stmts(w.last()).last()), true_target(w.last()) == v.len(), false_target(w.last()) is None
+    ensures br(w, true), has_room(w, (v.len() - 1) as usize), frame(v, w, v.len() - 1),
+        forall|k: int| 0 <= k < w.len() && pending(w, k) ==> k == v.len() - 1
+{
+    let l = v.len() - 1;
+    assert forall|k: int| 0 <= k < w.len() implies #[trigger] br_block(w, k, true) by {
+        assert(br_block(v, k, false));
+        if k == l {
+            let s = bb_stmts(w[l]); let s0 = bb_stmts(v[l]);
+            assert forall|i: int| 0 <= i < s.len() - 1 implies !is_branch(#[trigger] s[i]) by {
+                assert(s[i] == s.drop_last()[i]);
+                if i < s0.len() - 1 { assert(!is_branch(s0[i])); } else { assert(s0[i] == s0.last()); }
+            }
+        }
+    }
+    assert forall|k: int| 0 <= k < w.len() && pending(w, k) implies k == l by {
+        if k != l { assert(br_block(v, k, false)); assert(shape_block(v, k)); }
+    }
+}
+// adding the edge i -> h where i has room keeps I5-I7
+pub proof fn lemma_add_edge_br(v: Seq<BasicBlock>, w: Seq<BasicBlock>, i: usize, h: usize)
+    requires br(v, false), w.len() == v.len(), i < v.len(), h < v.len(),
+        has_room(v, i) || bb_succs(v[i as int]).contains(h),
+        forall|k: int| 0 <= k < v.len() ==> bb_stmts(#[trigger] w[k]) == bb_stmts(v[k])
+            && bb_succs(w[k]) =~= (if k == i { bb_succs(v[k]).insert(h) } else { bb_succs(v[k]) })
+    ensures br(w, false)
+{
+    assert forall|k: int| 0 <= k < w.len() implies #[trigger] br_block(w, k, false) by {
+        assert(br_block(v, k, false));
+        assert(ends_in_branch(w[k]) == ends_in_branch(v[k]));
+    }
 }
